@@ -23,6 +23,13 @@ import time
 ROOT = os.path.dirname(os.path.dirname(os.path.abspath(__file__)))
 LEAN = os.path.join(ROOT, "lean")
 REPO = os.environ.get("BEMPP_REPO", "/repo")
+if os.environ.get("BEMPP_REPO") and not os.environ.get("VERIF_SHARED_LEAN"):
+    # a run against a scratch tree (seeded changes) regenerates Gen/*.lean from THAT tree: give it its own copy of the
+    # Lean project (with the compiled .lake, so only what changed is rebuilt) instead of racing with checks on /repo
+    _scratch = os.environ.get("VERIF_LEAN_DIR") or "/tmp/verif-lean-" + re.sub(r"[^A-Za-z0-9]+", "_", os.environ["BEMPP_REPO"]).strip("_")
+    if not os.path.isdir(_scratch):
+        subprocess.run(["rsync", "-a", "--exclude", ".lake-verif-lock", LEAN + "/", _scratch + "/"], check=True)
+    LEAN = _scratch
 ALLOWED_AXIOMS = {"propext", "Classical.choice", "Quot.sound"}
 FORBIDDEN = re.compile(
     r"\bsorry\b|\badmit\b|^\s*axiom\s|native_decide|bv_decide|implemented_by|\bunsafe\s|maxHeartbeats\s+0\b|\bextern\b"
